@@ -696,6 +696,12 @@ inline auto generate(Scenario const& sc, uint64_t seed, Profile const& prof) -> 
     p.cfg.faultPct       = faultFree ? 0 : 1 + static_cast<int>(r.below(static_cast<uint64_t>(prof.maxFaultPct)));
     // history length: biased to short
     auto len = static_cast<int>(r.pct(70) ? 1 + r.below(12) : 1 + r.below(static_cast<uint64_t>(sc.maxSteps)));
+    // one run in 64 is DEEP: 4 to 16 times the scenario's usual maximum (several hundred steps on the same few objects), for
+    // what only shows after many fill / drain cycles. Decided from the seed itself, not from the stream, so that the other
+    // 63 plans stay what they were.
+    if (mix64(seed ^ 0x64656570ULL) % 64 == 0) {
+        len = sc.maxSteps * static_cast<int>(4 + mix64(seed ^ 0x6c656eULL) % 13);
+    }
     // per-run op weights: a random subset of ops is boosted or silenced
     std::vector<int> w;
     int total = 0;
